@@ -614,6 +614,15 @@ static void ecmaTrace(Config const& cfg, Obj& f, unsigned seed, std::size_t step
 	seedRun(hold, seed, 1);
 	initOpt(cfg, m, f, x0);
 	out << "trace n=" << f.n << " active=" << (m.activeUpdate() ? 1 : 0);
+	// what the Lean model of PenalizingEvaluator (Model/CMA.lean `penalized` / `unpenalized`) needs to re-evaluate the offspring:
+	// objective, feasibility box and the penalty factor AS CONFIGURED (not read back from the object)
+	out << " OBJ=" << (f.kind == 0 ? "quad" : f.kind == 1 ? "rosen" : f.kind == 3 ? "plateau" : "sphere") << " SC=" << hexd(f.scale)
+	    << " PF=" << hexd(cfg.has("penalty") ? cfg.num("penalty") : 1E-6);
+	if(f.kind == 0){
+		auto hexStd = [](std::vector<double> const& v){ std::string r; for(std::size_t i = 0; i != v.size(); ++i){ if(i) r += ","; r += hexd(v[i]); } return r; };
+		out << " QA=" << hexStd(f.A) << " QB=" << hexStd(f.b);
+	}
+	if(f.soft){ out << " LO=" << hexVec(f.handler.lower()) << " HI=" << hexVec(f.handler.upper()); }
 	auto state = [&](){
 		CMAChromosome const& ch = m.m_individual.chromosome();
 		std::ostringstream os;
